@@ -493,11 +493,12 @@ def a64MemIndexText (env : Env) (m : A64Mem) : Str :=
 
 /-- the offset: a post-index operand always shows it (repaired code, fixes/C20-2.patch; the pinned code printed `[x7]` for the
     post-index form with offset 0, the same text as the plain offset form) -/
-def a64MemOffText (flags : Nat) (m : A64Mem) : Str :=
-  let off := effOff (m.base ≠ MemBase.none) m.off
+def a64MemOffTextOf (flags : Nat) (m : A64Mem) (off : Nat) : Str :=
   if off ≠ 0 ∨ (m.mode = 2 ∧ m.index.isNone) then
     ", ".toList ++ (if hasBit flags ffHexOffsets ∧ off > 9 then ['0', 'x'] ++ uintStr off 16 else intStr off)
   else []
+
+def a64MemOffText (flags : Nat) (m : A64Mem) : Str := a64MemOffTextOf flags m (effOff (m.base ≠ MemBase.none) m.off)
 
 /-- the extend/shift operation is printed whenever it is not the default `lsl 0` (repaired code, fixes/C20-1.patch; the pinned
     code printed it only when the shift amount was non-zero and so lost `uxtw/sxtw/sxtx` with amount 0) -/
